@@ -1,3 +1,87 @@
-Require Import FV.Gen.C14 FV.C14.Model.
-Theorem C14_placeholder : outer_rounds = 2. Proof. reflexivity. Qed.
-Print Assumptions C14_placeholder.
+(* C14 — property theorems only; each is closed by a lemma of Lemmas.v.  W ranges over every behaviour
+   program of state/cleanup functions and every interference (start/stop posted at any hook), ops over
+   every history of cycle/start/stop. *)
+From Coq Require Import List Arith ZArith Bool Lia.
+Import ListNotations.
+Require Import FV.Gen.C14 FV.C14.Model FV.C14.Lemmas.
+
+(* obligations on the facts regenerated from /repo (Gen/C14.v) *)
+Theorem C14_source_facts :
+  inner_loop_is_range_maxloops = true /\ cleanup_swap_under_lock = true /\ task_pickup_under_lock = true /\
+  start_only_posts = true /\ stop_only_posts = true /\ 0 < maxloops /\ 0 < outer_rounds.
+Proof. repeat split; try reflexivity; apply Nat.ltb_lt; reflexivity. Qed.
+
+(* one cycle makes at most outer_rounds*maxloops state calls and outer_rounds cleanup calls; being a total
+   function of the model it always returns *)
+Theorem C14_cycle_bounded : forall W s,
+  ncalls (cycle W maxloops outer_rounds s) <= ncalls s + outer_rounds * maxloops /\
+  ncleanups (cycle W maxloops outer_rounds s) <= ncleanups s + outer_rounds.
+Proof. intros; apply cycle_bounded. Qed.
+
+(* every state call is made on the state of the last transition and sees init = "first call since that transition" *)
+Theorem C14_init_flag : forall W ops, sok (trace (run W maxloops outer_rounds ops)) = true.
+Proof. intros; apply init_flag_exact. Qed.
+
+(* per run: a start/stop interruption only as first interruption (a cleanup sequence is never interrupted),
+   the cleanup function at most once and right after the first interruption, and always then if one was installed *)
+Theorem C14_cleanup_exactly_once : forall W ops,
+  cok (trace (run W maxloops outer_rounds ops)) = true /\ need (trace (run W maxloops outer_rounds ops)) = false.
+Proof. intros; apply cleanup_exactly_once. Qed.
+
+(* the latest of several requests is the pending one *)
+Theorem C14_posts_last_wins : forall W ts t s,
+  next_task (fold_left (step W maxloops outer_rounds) (map OPost (ts ++ [t])) s) = Some t.
+Proof. intros; apply posts_last_wins. Qed.
+
+(* the pending start is entered with exactly its attributes and cleanup, from an idle machine, as soon as a
+   cleanup sequence in progress has finished (no interference in this round) *)
+Theorem C14_last_start_wins : forall W ops i f cl kw,
+  quiet W -> let s := run W maxloops outer_rounds ops in
+  next_task s = Some (TStart i f cl kw) ->
+  let '(s', go) := round W maxloops s in
+  if go then statefunc s' = Some f /\ init s' = true /\ next_task s' = None /\ cleanup_reason s' = None /\
+             cleanup s' = option_map (fun c => (i, c)) cl /\ attrs s' = upd_all kw (attrs s)
+  else next_task s' = Some (TStart i f cl kw) /\ statefunc s' <> None /\ cleanup_reason s' <> None.
+Proof.
+  intros W ops i f cl kw Q s Hn. apply start_wins; [exact Q|apply C14_source_facts|apply RInv_reachable|exact Hn].
+Qed.
+
+Theorem C14_attrs_exact : forall k v kw1 kw2 l,
+  ~ In k (map fst kw2) -> lookup k (upd_all (kw1 ++ (k, v) :: kw2) l) = Some v.
+Proof. intros; apply lookup_upd_all_last; assumption. Qed.
+Theorem C14_attrs_frame : forall k kw l, ~ In k (map fst kw) -> lookup k (upd_all kw l) = lookup k l.
+Proof. intros; apply lookup_upd_all_notin; assumption. Qed.
+
+Theorem C14_stop_inactive : forall W ops i,
+  quiet W -> let s := run W maxloops outer_rounds ops in
+  next_task s = Some (TStop i) ->
+  let '(s', go) := round W maxloops s in
+  if go then statefunc s' = None /\ next_task s' = None /\ cleanup_reason s' = None /\ attrs s' = attrs s
+  else next_task s' = Some (TStop i) /\ statefunc s' <> None /\ cleanup_reason s' <> None.
+Proof.
+  intros W ops i Q s Hn. apply stop_makes_inactive; [exact Q|apply C14_source_facts|apply RInv_reachable|exact Hn].
+Qed.
+
+(* non-vacuity: a history in which a run with a cleanup is interrupted by a restart, the cleanup continues with a
+   cleanup state, and the restart is taken afterwards *)
+Definition demoW : world :=
+  {| w_s := fun n => if Nat.ltb n 6 then BRetry else if Nat.ltb n 10 then BFinish else BRetry;
+     w_c := fun _ => CNext 7;
+     w_env := fun _ => None |}.
+Definition demo_ops := [OPost (TStart 0 1 (Some 5) [(0, 4%Z)]); OCycle; OPost (TStart 2 2 None []); OCycle; OCycle].
+Example C14_demo :
+  rev (trace (run demoW maxloops outer_rounds demo_ops)) =
+  [EvPickup 0 true; EvTrans false (Some 1); EvCall 1 true;
+   EvInt 1; EvCleanup 0 5 1; EvTrans true (Some 7); EvCall 7 true; EvTrans true None;
+   EvPickup 2 false; EvTrans false (Some 2); EvCall 2 true; EvCall 2 false].
+Proof. vm_compute. reflexivity. Qed.
+
+Print Assumptions C14_source_facts.
+Print Assumptions C14_cycle_bounded.
+Print Assumptions C14_init_flag.
+Print Assumptions C14_cleanup_exactly_once.
+Print Assumptions C14_posts_last_wins.
+Print Assumptions C14_last_start_wins.
+Print Assumptions C14_attrs_exact.
+Print Assumptions C14_attrs_frame.
+Print Assumptions C14_stop_inactive.
